@@ -181,6 +181,7 @@ class SimConn:
         self.segment: Optional[Callable[[bytes], list[bytes]]] = None
         self.label = f'c{cid}'
         self.coalesce = False
+        self.early_ok = [True, True]     # may chunks written by side i be released while the loop is busy
         self.on_write: Optional[Callable[[int, bytes], None]] = None
 
     # writer side ---------------------------------------------------------------------------
@@ -209,7 +210,8 @@ class SimConn:
             d = _Delivery(self, src, chunk)
             world.post(EnvEvent(
                 'deliver', f'deliver:{self.label}:{src}>{dst}:{len(chunk)}', d.fire,
-                chan=self._chan(src), guard=self._guard(dst), losable=self.net.losable))
+                chan=self._chan(src), guard=self._guard(dst), losable=self.net.losable,
+                early_ok=self.early_ok[src]))
 
     def enqueue_eof(self, src: int):
         dst = 1 - src
